@@ -99,8 +99,8 @@ fn net_lines(buf: &[u8], port_off: u16, dropped: bool, t: u64, out: &mut Vec<Val
     for s in &m.subs {
         let line = match s {
             Sub::Data { writer, sn, payload, .. } if user_eid(writer) => json!({"k":"DATA","sn":sn,"len":payload.as_ref().map(|p| p.len()).unwrap_or(0)}),
-            Sub::DataFrag { writer, sn, frag_start, frags_in_sub, sample_size, frag_size, .. } if user_eid(writer) => {
-                json!({"k":"FRAG","sn":sn,"f":frag_start,"n":frags_in_sub,"size":sample_size,"fsz":frag_size})
+            Sub::DataFrag { writer, reader, sn, frag_start, frags_in_sub, sample_size, frag_size, .. } if user_eid(writer) => {
+                json!({"k":"FRAG","sn":sn,"f":frag_start,"n":frags_in_sub,"size":sample_size,"fsz":frag_size,"rd":hex4(reader)})
             }
             Sub::Heartbeat { writer, first, last, .. } if user_eid(writer) => json!({"k":"HB","first":first,"last":last}),
             Sub::Gap { writer, start, list, .. } if user_eid(writer) => json!({"k":"GAP","start":start,"base":list.base,"set":list.members()}),
@@ -487,7 +487,9 @@ fn create(world: &mut World, what: &str, spec: &SysSpec, out: &mut Vec<Value>) {
     }
     .map(|p| 11 + 2 * p.participant_id())
     .unwrap_or(0);
-    out.push(json!({"ev":"Create","what":what,"ok":ok,"guid":guid,"port":port,"t":t}));
+    // eid: the entity id part of the GUID (DATAFRAG repairs name the reader they are for by it)
+    let eid: String = if guid.len() >= 8 { guid[guid.len() - 8..].to_string() } else { String::new() };
+    out.push(json!({"ev":"Create","what":what,"ok":ok,"guid":guid,"port":port,"eid":eid,"t":t}));
 }
 
 pub fn run_one(run_no: usize, spec: &SysSpec, out: &mut Vec<Value>) -> Vec<Vec<u8>> {
